@@ -253,6 +253,18 @@ class C08:
         add("proofverify %s %s %s %s %s N N" % (suite, tb(pk), tb(pr), tl([]), ti([0, 2])), "fe:proofverify-len")
         add("proofverify %s %s %s N N N N" % (suite, tb(pk), tb(pr)), "fe:proofverify-none")
         add("proofgen %s %s %s N N N %s" % (suite, tb(pk), tb(f["sig"]), ti([0])), "fe:proofgen-nomsgs")
+        # index lists of every ORDER shape (ascending, descending, repeated, with huge entries) against message lists of every length
+        # 0 .. len + 1: whatever a verifier or prover does to bring the two lists into order must come after (or survive) the length check
+        IDXS = [[], [0], [0, 2], [2, 0], [1, 1], [0, 0, 2], [2, 1, 0], [3, 0, 3, 1], [2**64 - 1, 0], [0, 2**64 - 1], [1, 0, 1, 0, 1]]
+        for idx in IDXS:
+            for k in range(0, len(idx) + 2):
+                ms = [b"m%d" % j for j in range(k)]
+                add("proofverify %s %s %s %s %s %s %s" % (suite, tb(pk), tb(pr), tl(ms), ti(idx), tob(f["header"]), tob(b"ph")), "fe:proofverify-order-len")
+                add(P.bpv_line(bproofs[0], D=idx, dmsgs=ms), "fe:blindproofverify-order-len")
+                add(P.bpv_line(bproofs[0], Dc=idx, dcmsgs=ms), "fe:blindproofverify-corder-len")
+                add(P.bpv_line(bproofs[0], D=idx, dmsgs=ms, Dc=list(reversed(idx)), dcmsgs=ms[:1]), "fe:blindproofverify-both-order-len")
+            add("proofgen %s %s %s %s %s %s %s" % (suite, tb(pk), tb(f["sig"]), tob(f["header"]), "N", tl(f["msgs"]), ti(idx)), "fe:proofgen-order")
+            add("blindproofgen %s %s %s %s N %s %s %s %s %s" % (suite, tb(bf["pk"]), tb(bf["sig"]), tob(bf["header"]), tl(bf["msgs"]), tl(bf["cm"]), ti(idx), ti(list(reversed(idx))), tob(bf["blind"])), "fe:blindproofgen-order")
         # malformed artefacts into the front ends: every truncation of proof / commitment, garbage
         for n in range(0, len(pr) + 40, 1 if tier != "quick" else 3):
             b = (pr + P.rb(rng, 40))[:n]
